@@ -285,7 +285,9 @@ func (rustTarget) RunCells(e *Env, cells []*Cell) {
 			return // a harness fault is never cached
 		}
 		// 3. run
-		so, se, err := runSegments(c, func(in []byte) ([]byte, []byte, error) { return Run(dir, rustRunTimout, rustEnv(), in, filepath.Join(dir, "vdriver")) })
+		so, se, err := runSegments(c, func(in []byte) ([]byte, []byte, error) {
+			return Run(dir, rustRunTimout, rustEnv(), in, filepath.Join(dir, "vdriver"))
+		})
 		if err != nil {
 			// the process died (abort, stack overflow, timeout): keep what it answered before
 			c.Stage, c.BuildLog = "run", fmt.Sprintf("%v\n%s", err, trunc(se, 4000))
